@@ -9,7 +9,7 @@ import UralModel.Lemmas.UrlPattern
 * `http_decomp` / `http_accepts` for `HTTP_PROTOCOL_RE`.
 -/
 namespace Ural.UrlPattern
-open Ural.Py Ural.Py.Re Ural.Gen.Patterns
+open Ural.Py Ural.Py.Re Ural.Py.Re.Extra Ural.Gen.Patterns
 
 /-! ## class facts, one by one -/
 
